@@ -184,6 +184,9 @@ func (c04) Exec(h []Ev) []Ev {
 				b := []byte{0, 0, 1, byte(GI(e["sid"])), 0, 0, 0x80, 0xc0, 10, 0, 0, 0, 0, 0, 0, 0, 0, 0, 0, 0xaa, 0xbb}
 				gots.InsertPTS(b[9:14], v)
 				gots.InsertPTS(b[14:19], w)
+				if GI(e["sid"])%2 == 1 {
+					b[5] = byte(len(b) - 6) // PES_packet_length counts what follows (0, as written above, means unbounded)
+				}
 				e["bytes"] = B(b)
 				e["haspts"], e["hasdts"], e["pts"], e["dts"] = false, false, W64(0), W64(0)
 				if hd, err := pes.NewPESHeader(b); err == nil {
